@@ -4,7 +4,7 @@
    one of the 15 codes the decoder handles after percent-2-5", a decidable predicate on the original string that the model runner
    evaluates on every generated case - and the class is sharp on its shortest members (each late code itself fails).  The query and
    form parsers around the codec: C17_parse_query_spec for one pair, representative maps by computation, correspondence for the rest. *)
-From Rws Require Import Str Utf8 Num Request GenCodec Forms C17Proof C17Round C17General.
+From Rws Require Import Str Utf8 Num Request GenCodec Forms C17Proof C17Round C17General C17Map.
 Open Scope N_scope.
 
 Definition C17_full : Prop := forall s, decode_uri (encode_uri s) = s.
@@ -50,3 +50,16 @@ Theorem C17_F1_class :
 Proof. exact F1_inhabited_and_sharp. Qed.
 Theorem C17_percent_free_outside_F1 : forall s, ~ In 37 s -> in_F1 s = false.
 Proof. exact percent_free_outside_F1. Qed.
+
+(* THE PROPERTY'S STATEMENT, outside the class: for every non-empty list of fields with distinct, non-empty names, every name and value
+   any byte string outside C17-F1, the query text the encoder builds (name=value pairs joined by ampersands) is parsed back to exactly
+   that list by the query parser, and by the form-body parser whenever the text is valid UTF-8 and passes its control-character filter
+   unchanged.  map_ok and form_text_ok are decidable and evaluated by the model runner on every generated map. *)
+Theorem C17_fields_round_trip : forall m, map_ok m = true ->
+  parse_query (build_query m) = m /\ (form_text_ok (build_query m) = true -> form_urlencoded_parse (build_query m) = Some m).
+Proof. exact map_ok_round_trip. Qed.
+Theorem C17_fields_domain :
+  map_ok [([107;32;49], [118;38;61;37]); ([195;169], [240;159;152;128]); ([97;61;98], [63;35;47;13;10]); ([120], [37;52;49]); ([121], [])] = true /\
+  form_text_ok (build_query [([107;32;49], [118;38;61;37]); ([195;169], [240;159;152;128]); ([97;61;98], [63;35;47;13;10]); ([120], [37;52;49]); ([121], [])]) = true /\
+  map_ok [([107], [37;50;54])] = false /\ map_ok [([107], [1]); ([107], [2])] = false /\ map_ok [([], [1])] = false.
+Proof. exact map_ok_example. Qed.
